@@ -34,6 +34,7 @@ type Engine struct {
 	RawSMTLate map[string][]string // per package path: emitted after the spec function declarations (package-level axioms)
 	typeTags   map[string]int
 	theory     map[string]string
+	pureMemo   map[*ssa.Function]bool
 	srcLines   map[string][]string
 	// Options
 	CheckOverflow bool
@@ -101,6 +102,14 @@ func (e *Engine) AddContractFile(path, pkgPath string) error {
 		return err
 	}
 	for _, fc := range f.Funcs {
+		if strings.HasPrefix(fc.Name, "functype:") {
+			// key by the printed type: strip parameter names and qualify package-local type names
+			if k := e.functypeKey(fc.Name, pkgPath); k != "" {
+				e.Contracts[k] = fc
+				continue
+			}
+			return fmt.Errorf("%s:%d: cannot resolve function type %q", path, fc.Line, fc.Name)
+		}
 		key := e.resolveKey(fc.Name, pkgPath)
 		if fc.Interface {
 			e.Iface[key] = fc
@@ -361,3 +370,59 @@ func (e *Engine) BundleKeys(name string) [][2]string {
 
 // TypesPkg returns the go/types package with the given path.
 func (e *Engine) TypesPkg(path string) *types.Package { return e.typesPkg(path) }
+
+// functypeKey finds the function type written in a functype header among the signatures of the package's functions.
+func (e *Engine) functypeKey(name, pkgPath string) string {
+	want := reAlias.ReplaceAllStringFunc(normSig(strings.TrimPrefix(name, "functype:")), func(m string) string {
+		if m == "byte" {
+			return "uint8"
+		}
+		return "int32"
+	})
+	for _, p := range e.SSAPkgs {
+		if p == nil || p.Pkg.Path() != pkgPath {
+			continue
+		}
+		for _, m := range p.Members {
+			if fn, ok := m.(*ssa.Function); ok {
+				tn := typeName(fn.Signature)
+				if normSig(stripPkg(tn, p.Pkg.Name())) == want {
+					return "functype:" + SigKey(fn.Signature)
+				}
+			}
+		}
+	}
+	return ""
+}
+
+func stripPkg(s, pkg string) string { return strings.ReplaceAll(s, pkg+".", "") }
+
+// normSig removes parameter names and spaces from a printed signature.
+func normSig(s string) string {
+	s = strings.TrimSpace(s)
+	i, j := strings.Index(s, "("), strings.LastIndex(s, ")")
+	if i < 0 || j < i {
+		return strings.ReplaceAll(s, " ", "")
+	}
+	var ps []string
+	for _, part := range strings.Split(s[i+1:j], ",") {
+		fs := strings.Fields(strings.TrimSpace(part))
+		if len(fs) == 0 {
+			continue
+		}
+		ps = append(ps, fs[len(fs)-1])
+	}
+	return strings.ReplaceAll(s[:i]+"("+strings.Join(ps, ",")+")"+s[j+1:], " ", "")
+}
+
+// SigKey prints a signature without parameter names (the key of function-type contracts).
+func SigKey(sig *types.Signature) string {
+	var ps, rs []string
+	for i := 0; i < sig.Params().Len(); i++ {
+		ps = append(ps, typeName(sig.Params().At(i).Type()))
+	}
+	for i := 0; i < sig.Results().Len(); i++ {
+		rs = append(rs, typeName(sig.Results().At(i).Type()))
+	}
+	return "func(" + strings.Join(ps, ",") + ")(" + strings.Join(rs, ",") + ")"
+}
